@@ -25,7 +25,13 @@ pub fn run_one(recs: &[Rec], fastq: bool, wrap: usize, cut_line: usize, phys: &P
     let lines = lines_of_records(recs, &lay);
     let bytes = join_lines(&lines, &lay);
     // file names as they occur in practice: inner dots before the suffix (GCF_000005845.2_ASM584v2_genomic.fna.gz)
-    let inner = if bytes.len() % 2 == 0 { ".2_ASM584v2" } else { "" };
+    // ... and inner parts that look like the suffix of the OTHER format (reads.fastq.fa is a FASTA file: the last suffix decides)
+    let inner = match bytes.len() % 4 {
+        0 => ".2_ASM584v2",
+        1 => "",
+        2 => if fastq { ".fa" } else { ".fastq" },
+        _ => if fastq { ".fasta.gz" } else { ".fq.gz" },
+    };
     let path = format!("{}/rd_{}{}.{}{}", dir, tag, inner, phys.ext, if phys.gz.is_some() { ".gz" } else { "" });
     let data = match &phys.gz {
         None => bytes.clone(),
@@ -147,7 +153,22 @@ pub fn free(seed: u64, runs: usize, dir: &str, maxlen: usize) {
         } else {
             recs
         };
-        let wrap = if i % 4 == 0 || huge { 0 } else { rng.range(1, 200) as usize };
+        // one run holds 18 FASTA records of exactly 64 KiB each on disk: every header starts on a 64 KiB boundary (one at 1 MiB),
+        // so record boundaries coincide with the boundaries of any power-of-two block a reader or a counting pass may use
+        let aligned = i == 6;
+        let recs: Vec<Rec> = if aligned {
+            (0..18)
+                .map(|j| {
+                    let id = format!("r{}", j).into_bytes();
+                    let len = 65_536 - (id.len() + 2) - 1;
+                    Rec { id, desc: None, seq: (0..len).map(|_| *rng.pick(b"ACGTacgtN")).collect() }
+                })
+                .collect()
+        } else {
+            recs
+        };
+        let fastq = fastq && !aligned;
+        let wrap = if i % 4 == 0 || huge || aligned { 0 } else { rng.range(1, 200) as usize };
         // indented records and blanks between blocks of letters (as in flat-file exports): a blank or tab that is not the last
         // byte of its line is a base like any other byte, and positions downstream count it
         let mut recs = recs;
@@ -166,11 +187,11 @@ pub fn free(seed: u64, runs: usize, dir: &str, maxlen: usize) {
                 }
             }
         }
-        let crlf = i % 5 == 1;
+        let crlf = i % 5 == 1 && !aligned;
         let final_nl = i % 6 != 2;
         let lay = Layout { fastq, wrap, crlf, final_nl };
         let total = join_lines(&lines_of_records(&recs, &lay), &lay).len();
-        let gz = match i % 4 {
+        let gz = match if aligned { 0 } else { i % 4 } {
             0 => None,
             1 => Some((vec![], false)),
             _ => {
